@@ -277,14 +277,15 @@ func runW4C19(t *testing.T, job *Job, seed uint64, rp *Replay) RunOut {
 			simrt.Sleep(100 * time.Millisecond)
 			mu.Lock()
 			snap := len(notes)*3 + tomlWriteCalls
+			ud := userDone
 			if userDone {
 				snap += 1000000
 			}
 			mu.Unlock()
-			if snap == last {
+			if snap == last && ud {
 				stable++
 			} else {
-				stable = 0
+				stable = 0 // never judge while the user is still editing (pauses between operations are up to 200 ms)
 			}
 			last = snap
 		}
